@@ -26,7 +26,7 @@ RULE = (
     "structure, different values; leaves as python floats / NumPy scalars / JAX arrays), 2 batches of initial "
     "states, 2 seeds and a generated sequence of 4-14 operations from {solve(p), simulate(p, init, seed, "
     "vf_arr_list=solve(p)), solve_and_simulate(p, init, seed), rebuild (call get_lcm_function again and switch to "
-    "the new objects), poison (overwrite the user's params object that was passed to the previous call)}. Model: a "
+    "the new objects), poison (overwrite the user's params object that was passed to the previous call), reuse_dict (overwrite ONE long-lived params dict in place with another variant's values and pass the same object again)}. Model: a "
     "memo keyed by the VALUES of the arguments holding the first result; after every operation the result must "
     "equal the memo entry (floats 1e-12, discrete exact, identical leaf values for the three leaf types), the user's "
     "Model (functions dict, signatures, grids) and the params object passed in must be unchanged (deep structural "
@@ -60,7 +60,7 @@ def cases(draw):
                          "leaf": draw(st.sampled_from(["float", "numpy", "jax"]))})
     ops = []
     for _ in range(draw(st.integers(4, 14))):
-        kind = draw(st.sampled_from(["solve", "solve", "simulate", "sas", "rebuild", "poison", "leafswap"]))
+        kind = draw(st.sampled_from(["solve", "solve", "simulate", "sas", "sas", "rebuild", "poison", "leafswap", "reuse_dict", "reuse_dict"]))
         ops.append({"op": kind, "p": draw(st.integers(0, nvar - 1)), "a": draw(st.integers(0, 1)), "s": draw(st.integers(0, 1))})
     return {"spec": spec.to_json(), "variants": variants, "agents": [draw(raw_agents(1, 4)), draw(raw_agents(2, 5))],
             "seeds": [draw(st.integers(0, 2**31 - 1)), draw(st.integers(0, 2**31 - 1))], "ops": ops,
@@ -167,6 +167,7 @@ def check(case):
     cnt = {"ops": 0, "memo_hits": 0, "rebuilds": 0, "subprocess_comparisons": 0}
     leaves = [v["leaf"] for v in case["variants"]]
     last_params = None
+    held = None
     history = []
     for op in case["ops"]:
         kind = op["op"]
@@ -188,7 +189,49 @@ def check(case):
             leaves[op["p"]] = {"float": "numpy", "numpy": "jax", "jax": "float"}[leaves[op["p"]]]
             continue
         pi = op["p"]
-        params = to_lcm_params(specs[pi], leaf=leaves[pi])
+        if kind == "reuse_dict" and len(specs) > 1:
+            # two CONSECUTIVE calls of the same function with the same dict object whose contents
+            # were overwritten in place between the calls (variant q, then variant pi)
+            qi = (pi + 1) % len(specs)
+            first = to_lcm_params(specs[qi], leaf=leaves[qi])
+            fn_kind = "solve_and_simulate" if op["a"] else "solve"
+            init0 = {k: jnp.asarray(v) for k, v in inits[op["a"]].items()}
+            kw0 = {"initial_states": init0, "seed": case["seeds"][op["s"]]} if op["a"] else {}
+            call_lcm(fns[fn_kind], first, **kw0)
+            fresh = to_lcm_params(specs[pi], leaf=leaves[pi])
+            for k in list(first):
+                if isinstance(first[k], dict) and k != "shocks":
+                    first[k].clear()
+                    first[k].update(fresh[k])
+                else:
+                    first[k] = fresh[k]
+            second = call_lcm(fns[fn_kind], first, **kw0)
+            ctrl = call_lcm(fns[fn_kind], to_lcm_params(specs[pi], leaf=leaves[pi]), **kw0)
+            history.append(f"U{qi}{pi}")
+            d = same_result(result_repr(ctrl), result_repr(second))
+            if d:
+                msgs.append(f"history {' '.join(history)}: {fn_kind} called twice in a row with ONE params dict whose contents were overwritten in place between the calls: the second result differs from a call with a fresh dict holding the same values ({d})")
+                break
+            continue
+        if kind == "reuse_dict":
+            # the caller re-uses ONE params dict object: its contents are overwritten in place
+            # with the values of variant pi and the same object is passed again
+            fresh = to_lcm_params(specs[pi], leaf=leaves[pi])
+            if held is None:
+                held = fresh
+            else:
+                for k in list(held):
+                    if isinstance(held[k], dict) and k != "shocks":
+                        held[k].clear()
+                        held[k].update(fresh[k])
+                    else:
+                        held[k] = fresh[k]
+            params = held
+            kind = "sas" if op["a"] else "solve"
+            reused = True
+        else:
+            reused = False
+            params = to_lcm_params(specs[pi], leaf=leaves[pi])
         snap = snapshot_params(params)
         init = {k: jnp.asarray(v) for k, v in inits[op["a"]].items()}
         seed = case["seeds"][op["s"]]
@@ -218,6 +261,17 @@ def check(case):
                 msgs.append(f"history {' '.join(history)}: repeated call {key} returns a different result than the first time ({d})")
                 break
         else:
+            if reused:
+                # control: the same VALUES in a fresh dict must give the same result
+                fresh2 = to_lcm_params(specs[pi], leaf=leaves[pi])
+                if kind == "solve":
+                    ctrl = call_lcm(fns["solve"], fresh2)
+                else:
+                    ctrl = call_lcm(fns["solve_and_simulate"], fresh2, initial_states=init, seed=seed)
+                d = same_result(result_repr(ctrl), rr)
+                if d:
+                    msgs.append(f"history {' '.join(history)}: a params dict that was overwritten in place and passed again gives a different result than a fresh dict with the same values ({d})")
+                    break
             memo[key] = rr
     if not msgs and case["subprocess"]:
         v0 = dict(case["variants"][0])
@@ -245,7 +299,7 @@ def check(case):
                 break
     hist = "".join(history)
     interleaved = False
-    seq = [h[1:] for h in history if h != "R"]
+    seq = [h[1:] for h in history if h != "R" and not h.startswith("U")]
     for i in range(len(seq)):
         for j in range(i + 1, len(seq)):
             for k in range(j + 1, len(seq)):
